@@ -101,3 +101,21 @@ PROPS['C04'] = dict(
     technique='reference-model + self-consistency (metamorphic) monitor over boundary-exhaustive civil probes; release + debug-assertion builds',
     design_ref='DESIGN.md section 4, C04',
 )
+
+PROPS['C14'] = dict(
+    sub='c14',
+    prep=['synth'],
+    quick=[S('rel'), S('dbg', 'zone_stride=4')],
+    thorough=[S('rel'), S('dbg')],
+    rule='same zone corpus as C03 (incl. zones that abolished DST, rule-only POSIX zones, fixed offsets). Per zone the model\'s complete list of info-change instants over years -9999..9999 is computed; '
+         'following() and preceding() are started on, 1ns/0.5s/1s before and 1ns/1s after a strided+seeded selection of them (always the first and last six), before the first, after the last, at both range limits and at seeded instants, '
+         'for a bounded number of steps, and to exhaustion from both range limits and from the middle (quick: every 5th zone; thorough: all). '
+         'Monitors: strict monotonicity, strictly after/before the start, whole seconds, yielded info == direct lookup == model, no model change inside the traversed window unyielded, constant info between consecutive yields (direct lookups), termination under a 100000-step cap. '
+         'distinct_nontrivial = distinct (zone, T) change instants used as starts',
+    floors={'any': {'zones': 1000, 'yields': 1000000, 'zones_traversed_to_exhaustion': 100}},
+    assumptions=TZ_ASSUME + ['yields at which nothing changes are counted (yields_where_nothing_changes) but not condemned: the statement forbids omissions, not extras'],
+    level_text='Trace monitoring of the real iterators: millions of yielded transitions from thousands of start instants per run are checked online for ordering and against the independent model\'s complete change list for omissions, across the table/rule boundary and both range limits.',
+    level_note='Trusted base as C03. Start instants are a strided+seeded subset of all transitions; complete traversals cover every transition of the traversed zones.',
+    technique='online trace monitor (ordering, omission, agreement with direct lookup) over iterator executions vs. reference model; release + debug-assertion builds',
+    design_ref='DESIGN.md section 4, C14',
+)
